@@ -355,6 +355,8 @@ def run_obligation(prop, tier, tu, o, cfg, unwind_hints, seed, wd):
         except OSError:
             pass
         props, st = parse_cbmc(out)
+        if not props and not use_trace and "VERIFICATION SUCCESSFUL" in out:
+            use_trace = True; continue        # discovery mode and no loop needs a bound at all
         if not props:
             tail = (out[-1500:] + "\n" + err[-1500:]).strip()
             reason = "cbmc produced no verdict (rc=%d)" % rc
